@@ -254,6 +254,11 @@ class SimTransport(transports.Transport):
                 self.loop.call_exception_handler({"message": "pause_writing failed", "exception": exc})
 
     def _maybe_resume(self):
+        if self._lost_pending:
+            if self._in_flight() == 0:
+                self._lost_pending = False
+                self.loop.call_soon(self._call_connection_lost, None)
+            return
         if self.write_paused and not self.closed and self._in_flight() <= self.window // 4:
             self.write_paused = False
             self.protocol.resume_writing()
@@ -281,7 +286,18 @@ class SimTransport(transports.Transport):
             else:
                 p.inbox.append([self.net.new_seq(), "gone", b""])
         self.inbox.clear()
+        if p is not None and getattr(p, "_lost_pending", False):
+            # the peer was waiting for us to take its buffered data before it could finish closing: it never will
+            p._lost_pending = False
+            self.loop.call_soon(p._call_connection_lost, ConnectionResetError(errno.ECONNRESET, "peer closed"))
+        if self.write_paused and p is not None and not p.closed and not p.closing and self._in_flight() > 0:
+            # like a real transport: data accepted by write() but not yet taken by the peer's window is flushed
+            # first; connection_lost (and StreamWriter.wait_closed) happens only after that
+            self._lost_pending = True
+            return
         self.loop.call_soon(self._call_connection_lost, None)
+
+    _lost_pending = False
 
     def abort(self):
         self._force_close(None, rst=True)
@@ -303,7 +319,11 @@ class SimTransport(transports.Transport):
         elif not already and p is not None and not p.closed:
             p.inbox.append([self.net.new_seq(), "gone", b""])
         self.inbox.clear()
-        if not already or exc is not None:
+        if p is not None and getattr(p, "_lost_pending", False):
+            p._lost_pending = False
+            self.loop.call_soon(p._call_connection_lost, ConnectionResetError(errno.ECONNRESET, "peer closed"))
+        if not already or exc is not None or self._lost_pending:
+            self._lost_pending = False
             self.loop.call_soon(self._call_connection_lost, exc)
 
     def _call_connection_lost(self, exc):
